@@ -1,11 +1,59 @@
 use crate::driver::Run;
 
+pub mod c01;
+pub mod c02;
+pub mod c03;
+pub mod c04;
+pub mod c05;
+pub mod c06;
+pub mod c07;
+pub mod c08;
+pub mod c09;
+pub mod c10;
+pub mod c11;
+pub mod c12;
+pub mod c13;
+pub mod c14;
 pub mod c15;
+pub mod c16;
+pub mod c17;
+pub mod c18;
+pub mod c19;
+pub mod c20;
 
 pub fn dispatch(id: &str, r: &mut Run) -> bool {
     match id {
+        "C01" => c01::run(r),
+        "C02" => c02::run(r),
+        "C03" => c03::run(r),
+        "C04" => c04::run(r),
+        "C05" => c05::run(r),
+        "C06" => c06::run(r),
+        "C07" => c07::run(r),
+        "C08" => c08::run(r),
+        "C09" => c09::run(r),
+        "C10" => c10::run(r),
+        "C11" => c11::run(r),
+        "C12" => c12::run(r),
+        "C13" => c13::run(r),
+        "C14" => c14::run(r),
         "C15" => c15::run(r),
+        "C16" => c16::run(r),
+        "C17" => c17::run(r),
+        "C18" => c18::run(r),
+        "C19" => c19::run(r),
+        "C20" => c20::run(r),
         _ => return false,
     }
     true
+}
+
+/// Requests handled inside a child worker process (`vcheck --worker <kind>`); see `worker.rs`.
+pub fn worker_dispatch(kind: &str, request: &str) -> String {
+    match kind {
+        "c06" => c06::worker(request),
+        "c07" => c07::worker(request),
+        "c12" => c12::worker(request),
+        _ => format!("ERR unknown worker kind {kind}"),
+    }
 }
